@@ -64,7 +64,7 @@ def judge(spec, inputs, out, ob):
                 # is there any completion at all? brute force over auxiliaries (small)
                 import itertools
                 auxs = [c for c in out["cols"] if c not in x]
-                found = False
+                found = len(auxs) > 16          # too many auxiliaries to enumerate: undecided, not reported
                 if len(auxs) <= 16:
                     for combo in itertools.product((0, 1), repeat=len(auxs)):
                         v2 = dict(x)
